@@ -39,15 +39,17 @@ const (
 	SecIfCall          // if H.C(r,p) { H.Y }                      panic in a method inside an if condition
 	SecForRange        // forRange k := M<r> { H.Y }               forRange over a nil / wrong-kind operand
 	SecMapIdx          // Req.Sl[VI<r>] = 1                        index out of range on the left-hand side
+	SecSetKind         // Resp.G<k> = VA<r>                        ill-typed value stored into an injected struct field
+	SecSetNil          // N<r>.X = 1                               field store through a nil injected pointer
 	numSecKinds
 )
 
-var secNames = [...]string{"Y", "Call", "AsgCall", "AsgKind", "Div", "Idx", "Nil", "Unknown", "Arg", "IfKind", "IfIdx", "IfNil", "Elif", "ForKind", "ForStep", "Unb", "Conc", "Local", "Reader", "Stop", "ShW", "ShR", "Upd", "Echo", "Opt", "IfCall", "ForRange", "MapIdx"}
+var secNames = [...]string{"Y", "Call", "AsgCall", "AsgKind", "Div", "Idx", "Nil", "Unknown", "Arg", "IfKind", "IfIdx", "IfNil", "Elif", "ForKind", "ForStep", "Unb", "Conc", "Local", "Reader", "Stop", "ShW", "ShR", "Upd", "Echo", "Opt", "IfCall", "ForRange", "MapIdx", "SetKind", "SetNil"}
 
 // FaultCapable reports whether a section hosts a fault point.
 func FaultCapable(k int) bool {
 	switch k {
-	case SecCall, SecAsgCall, SecAsgKind, SecDiv, SecIdx, SecNil, SecUnknown, SecArg, SecIfKind, SecIfIdx, SecIfNil, SecElif, SecForKind, SecForStep, SecUnb, SecConc, SecIfCall, SecForRange, SecMapIdx:
+	case SecCall, SecAsgCall, SecAsgKind, SecDiv, SecIdx, SecNil, SecUnknown, SecArg, SecIfKind, SecIfIdx, SecIfNil, SecElif, SecForKind, SecForStep, SecUnb, SecConc, SecIfCall, SecForRange, SecMapIdx, SecSetKind, SecSetNil:
 		return true
 	}
 	return false
@@ -192,6 +194,10 @@ func (r *RuleDef) Render() string {
 			yk++
 		case SecMapIdx:
 			fmt.Fprintf(&b, "H.B(%d,%d)\nReq.Sl[VI%d] = 1\n", id, p, id)
+		case SecSetKind:
+			fmt.Fprintf(&b, "H.B(%d,%d)\nResp.G%d = VA%d\n", id, p, id%8, id)
+		case SecSetNil:
+			fmt.Fprintf(&b, "H.B(%d,%d)\nN%d.X = 1\n", id, p, id)
 		case SecConc:
 			b.WriteString("conc {\n")
 			if s.Arg&(1<<ChAsgLocal) != 0 {
